@@ -1,7 +1,7 @@
 (* GuardCalls -- pinned statements only (generated once by tools/pin.py from `Check`, then fixed); proofs in GuardCallsP.v *)
 From Coq Require Import ZArith List Bool Lia Arith.
 Import ListNotations.
-Require Import Params GuardCallsW GuardSeq GuardCallsP.
+Require Import Params GuardCallsW EbrProtoW GuardSeq GuardCallsP.
 Local Open Scope Z_scope.
 
 Theorem GuardCalls_repin_is_generated :
@@ -24,4 +24,54 @@ Theorem GuardCalls_finalize_is_generated :
   forall (u : state -> res state) (s : state), run_calls u G_finalize s = finalize_with u s.
 Proof. exact GuardCallsP.finalize_is_generated. Qed.
 Print Assumptions GuardCalls_finalize_is_generated.
+
+Theorem GuardCalls_pin_decision :
+  forall s : state,
+       pin s =
+       (if MAXC <=? gc s
+        then Err E_OVERFLOW
+        else
+         let s1 := set_gc (gc s + 1) s in
+         if nbg (E_pin_conds (gc s) 0 0 0) 0
+         then
+          let s2 := set_ann (G s) (set_pinned true s1) in
+          Ok (if prev s =? G s then s2 else set_advc 0 (set_prev (G s) s2))
+         else Ok s1).
+Proof. exact GuardCallsP.pin_decision. Qed.
+Print Assumptions GuardCalls_pin_decision.
+
+Theorem GuardCalls_schedule_collection_decision :
+  forall s : state,
+       schedule_collection s =
+       (let s1 := set_must_collect true s in
+        if nbg (E_sched_conds (collecting s1) (gc s1)) 0 then repin_without_collect s1 else s1).
+Proof. exact GuardCallsP.schedule_collection_decision. Qed.
+Print Assumptions GuardCalls_schedule_collection_decision.
+
+Theorem GuardCalls_release_handle_decision :
+  forall (u : state -> res state) (s : state),
+       release_handle_with u s =
+       (let s1 := set_hc (hc s - 1) s in
+        if nbg (E_relh_conds (gc s) (hc s)) 0 then finalize_with u s1 else Ok s1).
+Proof. exact GuardCallsP.release_handle_decision. Qed.
+Print Assumptions GuardCalls_release_handle_decision.
+
+Theorem GuardCalls_unpin_decisions :
+  forall (ur : state -> res state) (fuel : nat) (s : state) (mc : bool),
+       unpin_lvl ur fuel s =
+       (let g0 := gc s in
+        bind
+          (if nbg (E_unpin_conds g0 (collecting s) mc 0) 0
+           then
+            bind (coll_loop ur fuel (set_collecting true s)) (fun s' : state => Ok (set_collecting false s'))
+           else Ok s)
+          (fun s1 : state =>
+           let s2 := set_gc (g0 - 1) s1 in
+           if nbg (E_unpin_conds g0 false mc 0) 2
+           then
+            let s3 := set_unpins (unpins s2 + 1) (set_ann 0 (set_pinned false s2)) in
+            if nbg (E_unpin_conds g0 false mc (hc s3)) 3 then finalize_with ur s3 else Ok s3
+           else Ok s2)).
+Proof. exact GuardCallsP.unpin_decisions. Qed.
+Print Assumptions GuardCalls_unpin_decisions.
 
